@@ -1,0 +1,10 @@
+//go:build verif
+
+package log
+
+// Contracts for package log, checked by /verif (govc). Comment-only file: it adds no declarations.
+
+// Debug and Info are initialised non-nil and are assigned nowhere outside package initialisation
+// (the writer scan of govc re-checks "assigned nowhere" on every run).
+//@ global github.com/brutella/hc/log.Debug nonnil
+//@ global github.com/brutella/hc/log.Info nonnil
